@@ -96,6 +96,10 @@ type RunSpec struct {
 	Deep      bool    `json:"deep,omitempty"` // built against the instrumented copy (scheduling points inside goldmark)
 	Fresh     bool    `json:"fresh_instance,omitempty"`
 	Cold      bool    `json:"cold_start,omitempty"`
+	// RefAfter: the expected results (each call alone on a fresh instance) are computed after
+	// the schedule has run, not before, so that the workers, not the reference, are the first
+	// in the process to see this run's documents (package-level caches are cold for them)
+	RefAfter bool `json:"ref_after,omitempty"`
 	Policy    string  `json:"policy,omitempty"`
 	PolicyArg int     `json:"policy_arg,omitempty"`
 	SchedSeed uint64  `json:"sched_seed,omitempty"`
